@@ -267,6 +267,25 @@ class SignatureInfo:
     # passed in using keywords so that they be overridden by keyword calling the
     # resulting `Partial`.
     parameters = list(self.parameters.values())
+    # Index of the last parameter whose value has to be passed positionally.
+    # An unset parameter before it cannot simply be skipped: later values
+    # would be bound to the wrong parameters.
+    last_positional = -1
+    if self.var_positional_start in arguments:
+      last_positional = self.var_positional_start - 1
+    else:
+      for index, param in enumerate(parameters):
+        if param.kind == param.POSITIONAL_ONLY and index in arguments:
+          last_positional = index
+
+    def fill_gap(index, param):
+      if param.default is param.empty:
+        raise TypeError(
+            f'Cannot pass positional arguments after parameter {param.name!r}'
+            ', which has no value and no default.'
+        )
+      positional_values.append(param.default)
+
     positional_values = []
     for index, param in enumerate(parameters):
       if param.kind == param.POSITIONAL_ONLY:
@@ -275,6 +294,8 @@ class SignatureInfo:
           del arguments[index]
         elif include_no_value:
           positional_values.append(self.get_default(index, NO_VALUE))
+        elif index <= last_positional:
+          fill_gap(index, param)
       if param.kind == param.POSITIONAL_OR_KEYWORD:
         if include_pos_or_kw_in_args or self.var_positional_start in arguments:
           if param.name in arguments:
@@ -282,6 +303,8 @@ class SignatureInfo:
             del arguments[param.name]
           elif include_no_value:
             positional_values.append(self.get_default(index, NO_VALUE))
+          elif index <= last_positional:
+            fill_gap(index, param)
     if self.var_positional_start is not None:
       index = self.var_positional_start
       while index in arguments:
